@@ -194,6 +194,10 @@ func TestC02Random(t *testing.T) {
 		tenv := &gen.TEnv{Base: gen.StdSchemas}
 		db := gen.GenDB(rt, gen.StdSchemas, []string{"A"})
 		n := rapid.IntRange(1, 8).Draw(rt, "len")
+		if rapid.IntRange(0, 14).Draw(rt, "longpipeline") == 0 {
+			// long pipelines: two-digit subquery numbers, many repetitions
+			n = rapid.IntRange(10, 30).Draw(rt, "longlen")
+		}
 		var kinds []string
 		for i := 0; i < n; i++ {
 			kinds = append(kinds, rapid.SampledFrom(nonJoinKinds).Draw(rt, "kind"))
